@@ -155,7 +155,22 @@ class Run:
         self.undecided.append((name, reason))
 
     # ------------------------------------------------------------ finish
-    def finish(self):
+    def lock_missing(self):
+        p = os.path.join(VERIF, "obligations.lock")
+        if not os.path.exists(p):
+            return []
+        with open(p) as f:
+            lock = json.load(f)
+        have = {o["name"] for o in self.obligations}
+        return sorted(set(lock.get(self.pid, [])) - have)
+
+    def finish(self, check_lock=True):
+        if check_lock:
+            missing = self.lock_missing()
+            if missing:
+                # a generator that silently produces fewer VCs is a checker crash, not a pass (DESIGN 2.2 guard i)
+                print(f"CHECKER-CRASH property={self.pid}: {len(missing)} locked obligations were not generated: {missing[:6]}")
+                return EXIT_CRASH
         wall = time.perf_counter() - self.t0
         n_ob = len(self.obligations)
         n_dis = sum(1 for o in self.obligations if o["verdict"] == "proved")
